@@ -6,6 +6,7 @@ package main
 import (
 	"go/token"
 	"go/types"
+	"strings"
 
 	"golang.org/x/tools/go/ssa"
 )
@@ -293,4 +294,43 @@ func loopContaining(fn *ssa.Function, pred func(ssa.Instruction) bool) *ssa.Basi
 		}
 	}
 	return best
+}
+
+// mentionsField: the canonical string key refers to a field access ").<f>" (not a
+// longer identifier).
+func mentionsField(key, f string) bool {
+	if f == "" {
+		return false
+	}
+	pat := ")." + f
+	for i := 0; ; {
+		j := strings.Index(key[i:], pat)
+		if j < 0 {
+			return false
+		}
+		end := i + j + len(pat)
+		if end == len(key) || !isIdentChar(key[end]) {
+			return true
+		}
+		i = end
+	}
+}
+
+// isNilPredOn: key has the form "(A==B)" where one side is nil and the other is a
+// load of field f.
+func isNilPredOn(key, f string) bool {
+	if !strings.HasPrefix(key, "(") || !strings.HasSuffix(key, ")") {
+		return false
+	}
+	in := key[1 : len(key)-1]
+	var other string
+	switch {
+	case strings.HasSuffix(in, "==nil"):
+		other = strings.TrimSuffix(in, "==nil")
+	case strings.HasPrefix(in, "nil=="):
+		other = strings.TrimPrefix(in, "nil==")
+	default:
+		return false
+	}
+	return strings.HasSuffix(other, ")."+f)
 }
